@@ -24,7 +24,8 @@ SHARD = 300
 TARGETS = [0, 1, 3, 5, 6, 10, -2, 'a', '', None, True,
            {'k': 'dict', 'od': False, 'id': 1, 'items': [['n', 7]]}, {'k': 'dict', 'od': False, 'id': 2, 'items': [['n', 2]]},
            {'k': 'dict', 'od': False, 'id': 3, 'items': []}, {'k': 'dict', 'od': False, 'id': 4, 'items': [['n', 2], ['m', 5]]},
-           {'k': 'dict', 'od': False, 'id': 5, 'items': [['n', 6], ['m', 6]]}]
+           {'k': 'dict', 'od': False, 'id': 5, 'items': [['n', 6], ['m', 6]]},
+           {'k': 'dict', 'od': False, 'id': 6, 'items': [['n', 0], ['m', '']]}]       # falsy values behind M(T[..])
 
 
 class Gen:
@@ -45,7 +46,8 @@ class Gen:
             lhs, rhs = r.choice([(n, m), (m, n), (n, n), (['M'], n), (n, ['M']), (['M'], ['M'])])
             return ['MExpr', lhs, r.choice(['>', '<', '=', '!', 'g', 'l']), rhs]
         if k == 'mtruth':
-            return ['M']
+            # bare M: the target is truthy; M(T[..]) on its own: what the sub-spec reaches is truthy (the target passes on)
+            return ['M'] if r.random() < 0.5 else ['MSub', ['T', 'T', [['[', ['Str', r.choice(['n', 'm'])]]]]]
         if k == 'type':
             return ['Match', ['Type', r.choice(['int', 'str', 'dict', 'NoneType'])], None]
         if k == 'lit':
